@@ -84,7 +84,7 @@ DETECT = {
     "C08-F": ("C08", ["C08"], "escaped at first: needed a dataset whose state is falsy ({}) before the first fetch, loaded into a loader that had already advanced (both added)"),
     "C10-E": ("C10", ["C10"], "at first only via the broken K-T correspondence: errors with in_order=False are now generated and compared as multisets per epoch"),
     "C10-F": ("C10", ["C10"], "as C10-E"),
-    "C16-E": ("C16", ["C16"], ""),
+    "C16-E": ("C16", ["C16"], "at first only K-D divergences (a concrete report seen earlier was a false alarm of the `{}` leg): the rejected checkpoint is now also loaded into a loader that is itself mid-epoch, and the leftover worker processes are reported (`C16:workers_left_behind`)"),
     "C16-F": ("C16", ["C16"], ""),
     "C02-E": ("C02", ["C02"], ""),
     "C06-E": ("C06", ["C06"], "escaped at first: `if snapshot:` -> `is not None` only matters for a source whose state_dict() is {} (replay-only source); such sources are now generated for the PM resume oracle"),
